@@ -121,7 +121,7 @@ static int compare(pclass_t cl, const opres_t* ra, const opres_t* rb, char* msg,
   }
 }
 
-static env_t* EN[17][2];
+static env_t* EN[17][N_DISP];
 static env_t* env_of(uint64_t N, int native) {
   unsigned k = ilog2(N);
   if (!EN[k][native]) EN[k][native] = env_create(N, native);
@@ -243,18 +243,18 @@ static int api_is_float(const char* name) {
     if (!strcmp(name, F[i])) return 1;
   return 0;
 }
-static void dispatch_case(int oi, uint64_t N, unsigned sd) {
+static void dispatch_case(int oi, uint64_t N, unsigned sd, int cfg) {
   const opdef_t* o = &OPS[oi];
   pclass_t cl = api_is_float(o->name) ? CL_FLOAT : classify(o->name);
   if (!strncmp(o->name, "vec_znx_idft", 12) && !strstr(o->name, "@ntt120")) cl = CL_ROUND_ZNX64;  // every FFT64 inverse DFT entry (in-place one included) ends with a rounding
   if (!strcmp(o->name, "reim_to_tnx")) cl = CL_TORUS;
   char key[160];
-  snprintf(key, sizeof key, "%s@native~generic|%s", o->name, cl_name[cl]);
+  snprintf(key, sizeof key, "%s@%s~generic|%s", o->name, disp_name[cfg], cl_name[cl]);
   if (!case_begin(key, "N=%" PRIu64 " seed=%u", N, sd)) return;
   opres_t ra, rb;
   const uint64_t seed = mix64(G.seed * 4099 + sd * 17 + N * 3);
   op_exec(o, env_of(N, 0), seed, (int)(sd & 3), sd, MON_CANARY | MON_CAPTURE, &ra);
-  op_exec(o, env_of(N, 1), seed, (int)((sd + 2) & 3), sd + 1, MON_CANARY | MON_CAPTURE, &rb);
+  op_exec(o, env_of(N, cfg), seed, (int)((sd + 2) & 3), sd + 1, MON_CANARY | MON_CAPTURE, &rb);
   if (ra.skipped || rb.skipped) {
     free(ra.cap_in); free(ra.cap_out); free(rb.cap_in); free(rb.cap_out);
     case_end(0);
@@ -287,9 +287,10 @@ static void dispatch_case(int oi, uint64_t N, unsigned sd) {
     if (cl == CL_ROUND_TNX32) ra.d[0] = rb.d[0] = (double)(N / 2);
     bad = compare(cl, &ra, &rb, msg, sizeof msg, &worst);
   }
-  if (bad) viol("dispatch", "%s [N=%" PRIu64 " shape=%s]: generic-C and accelerated dispatch disagree: %s", o->name, N, ra.shape, msg);
+  if (bad) viol("dispatch", "%s [N=%" PRIu64 " shape=%s]: generic-C and %s dispatch disagree: %s", o->name, N, ra.shape, disp_name[cfg], msg);
   if (cl == CL_FLOAT) gauge_max("worst_dispatch_relative_difference", worst);
   cnt("dispatch_comparisons", 1);
+  cntf("dispatch_config:%s", 1, disp_name[cfg]);
   cntf("class:%s", 1, cl_name[cl]);
   sample("%zu output bytes equivalent under both dispatch configurations (%s)", ra.cap_out_bytes, cl_name[cl]);
   const int nontrivial = ra.cap_out_bytes > 0;
@@ -301,8 +302,10 @@ static void dispatch_case(int oi, uint64_t N, unsigned sd) {
 // each result is within E + 1/2 of the exact product, so the two differ by at most 2E + 1 and are equal when E < 1/4
 extern void c01_gen_pair(rng_t* r, int fam, uint64_t N, int64_t* a, int64_t* b);
 extern long double c01_budget_E(uint64_t N, const int64_t* a, const int64_t* b);
-static void product_dispatch_case(uint64_t N, int fam, unsigned rep) {
-  if (!case_begin("fft64-product@native~generic|budget", "N=%" PRIu64 " fam=%d rep=%u", N, fam, rep)) return;
+static void product_dispatch_case(uint64_t N, int fam, unsigned rep, int cfg) {
+  char key[96];
+  snprintf(key, sizeof key, "fft64-product@%s~generic|budget", disp_name[cfg]);
+  if (!case_begin(key, "N=%" PRIu64 " fam=%d rep=%u", N, fam, rep)) return;
   int64_t* a = malloc(N * 8);
   int64_t* b = malloc(N * 8);
   int64_t* r1 = malloc(N * 8);
@@ -310,7 +313,7 @@ static void product_dispatch_case(uint64_t N, int fam, unsigned rep) {
   int64_t* r3 = malloc(N * 8);
   c01_gen_pair(crng(), fam, N, a, b);
   const MODULE* mg = env_of(N, 0)->fft64;
-  const MODULE* mn = env_of(N, 1)->fft64;
+  const MODULE* mn = env_of(N, cfg)->fft64;
   uint8_t* tmp = malloc(znx_small_single_product_tmp_bytes(mn) + 64);
   znx_small_single_product(mg, r1, a, b, tmp);
   znx_small_single_product(mn, r2, a, b, tmp);
@@ -324,7 +327,7 @@ static void product_dispatch_case(uint64_t N, int fam, unsigned rep) {
   for (uint64_t i = 0; i < N; i++) {
     long double d12 = fabsl((long double)r1[i] - (long double)r2[i]), d13 = fabsl((long double)r1[i] - (long double)r3[i]);
     if (d12 > tol || d13 > tol || (E < 0.25L && (r1[i] != r2[i] || r1[i] != r3[i]))) {
-      viol("dispatch", "FFT64 product N=%" PRIu64 " coefficient %" PRIu64 ": generic %" PRId64 ", native small product %" PRId64 ", native svp+idft %" PRId64 " (2E+1 = %.3Lg)", N, i, r1[i], r2[i], r3[i], tol);
+      viol("dispatch", "FFT64 product N=%" PRIu64 " coefficient %" PRIu64 ": generic %" PRId64 ", %s small product %" PRId64 ", %s svp+idft %" PRId64 " (2E+1 = %.3Lg)", N, i, r1[i], disp_name[cfg], r2[i], disp_name[cfg], r3[i], tol);
       break;
     }
   }
@@ -344,7 +347,8 @@ void run_C07(void) {
       if ((o->flags & OPF_AVX) && o->twin)
         for (unsigned sd = 0; sd < seeds; sd++) pair_case(oi, N, sd);
       if ((o->flags & (OPF_FFT64 | OPF_TABLE)) && !(o->flags & OPF_AVX) && !strstr(o->name, "q120") && !strstr(o->name, "fresh table"))
-        for (unsigned sd = 0; sd < seeds; sd++) dispatch_case(oi, N, sd);
+        for (int cfg = DISP_NATIVE; cfg < N_DISP; cfg++)  // all CPU features, avx2 without fma, fma without avx2
+          for (unsigned sd = 0; sd < (cfg == DISP_NATIVE ? seeds : (seeds + 1) / 2); sd++) dispatch_case(oi, N, sd, cfg);
     }
   }
   // accelerated kernels under concurrency (hidden shared scratch would make them differ from the reference)
@@ -357,8 +361,9 @@ void run_C07(void) {
   }
   for (size_t ni = 0; ni < N_ALL_N; ni++)
     for (int fam = 0; fam < 12; fam++)
-      for (unsigned rep = 0; rep < (th ? (ALL_N[ni] <= 4096 ? 10u : 2u) : 1u); rep++) product_dispatch_case(ALL_N[ni], fam, rep);
+      for (unsigned rep = 0; rep < (th ? (ALL_N[ni] <= 4096 ? 10u : 2u) : 1u); rep++)
+        for (int cfg = DISP_NATIVE; cfg < N_DISP; cfg++) product_dispatch_case(ALL_N[ni], fam, rep, cfg);
   for (int k = 0; k < 17; k++)
-    for (int n = 0; n < 2; n++)
+    for (int n = 0; n < N_DISP; n++)
       if (EN[k][n]) env_destroy(EN[k][n]);
 }
